@@ -55,8 +55,8 @@ class HangDetected(BaseException):
 # Wall-clock limits are a last resort only (they turn an endless world into a
 # harness-level stall report, never into a result): the deciding hang guard is
 # the deterministic step limit below.
-OP_LIMIT = float(os.environ.get("VERIF_OP_LIMIT", "240"))
-PAR_LIMIT = float(os.environ.get("VERIF_PAR_LIMIT", "480"))
+OP_LIMIT = float(os.environ.get("VERIF_OP_LIMIT", "600"))
+PAR_LIMIT = float(os.environ.get("VERIF_PAR_LIMIT", "900"))
 SEQ_STEP_LIMIT = int(os.environ.get("VERIF_SEQ_STEP_LIMIT", "5000000"))  # engine-scope line events per sequential op
 
 
